@@ -18,6 +18,8 @@
    run by tools/c03.py: replication worlds (writer growth, clears, full and partial upgrades, block/hash/seek requests built
    from the replica's own missing-node query, replica reopen) on crate and model, with the oracle that every honest proof is
    accepted and every held block is byte-identical to the writer's. *)
+From HC Require Import AcceptAll1 AcceptAll2 AcceptAll AcceptAllCore3 AcceptAllHist.
+From HC Require AcceptAllEx.
 From HC Require Import ClearRefine Unified1 ProofContent.
 From HC Require Import Replicate2E.
 From HC Require Import Replicate2 Replicate2Z Replicate2D.
@@ -1213,6 +1215,328 @@ Theorem C03_create_proof_determined :
          end.
 Proof. exact create_proof_run. Qed.
 
+Theorem C03_every_wellformed_request_accepted :
+  forall (cr : crypto) (bs : list bytes),
+         sumN (map len bs) <= u64_max ->
+         forall (t : mtree) (tf : file) (w : N) (sg : bytes),
+         Refine.lookups cr t tf bs w ->
+         t_length t = w ->
+         t_roots t = TreeRef.ref_roots cr bs w ->
+         t_signature t = Some sg ->
+         2 * w <= u64_max ->
+         forall (rt : mtree) (rtf : file) (r : N),
+         t_roots rt = TreeRef.ref_roots cr bs r ->
+         t_length rt = r ->
+         t_byte_length rt = TreeRef.prefix_size bs r ->
+         r <= w ->
+         (forall (j : N) (n : node),
+          optional_node rt rtf j = Ok (Some n) -> n_hash n = n_hash (TreeRef.ref_at cr bs j)) ->
+         forall pk : bytes,
+         Datatypes.length sg = 64%nat ->
+         cr_verify cr pk (signable (tree_hash cr (TreeRef.ref_roots cr bs w)) w (t_fork t)) sg = true ->
+         forall rq : request, wf_request bs rt rtf w rq -> accepted cr bs t tf rt rtf w sg pk rq.
+Proof. exact wellformed_request_accepted. Qed.
+
+Theorem C03_first_contact_block_with_upgrade_accepted :
+  forall (cr : crypto) (bs : list bytes),
+         sumN (map len bs) <= u64_max ->
+         forall (t : mtree) (tf : file) (rt : mtree) (rtf : file) (w u i k : N) (sg pk : bytes),
+         Refine.lookups cr t tf bs w ->
+         t_length t = w ->
+         t_signature t = Some sg ->
+         t_roots rt = [] ->
+         t_length rt = 0 ->
+         t_byte_length rt = 0 ->
+         0 < u ->
+         u <= w ->
+         2 * w <= u64_max ->
+         i < u ->
+         Datatypes.length sg = 64%nat ->
+         cr_verify cr pk (signable (tree_hash cr (TreeRef.ref_roots cr bs w)) w (t_fork t)) sg = true ->
+         exists (l1 : list (nat * N)) (y : nat * N) (l2 : list (nat * N)) (cs : changeset),
+           roots_from g64 0 u = l1 ++ y :: l2 /\
+           covers y i = true /\
+           (let ns := path_nodes cr bs (fst y) i in
+            let up :=
+              {|
+                du_start := 0;
+                du_length := u;
+                du_nodes := map (TreeRef.rn cr bs) (l1 ++ l2);
+                du_additional := if u <? w then map (TreeRef.rn cr bs) (upg_idx g64 0 u w) else [];
+                du_signature := sg
+              |} in
+            create_valueless_proof t tf (Some {| rb_index := i; rb_nodes := k |}) None None
+              (Some {| ru_start := 0; ru_length := u |}) =
+            Ok
+              {|
+                vp_fork := t_fork t;
+                vp_block := Some {| dh_index := i; dh_nodes := ns |};
+                vp_hash := None;
+                vp_seek := None;
+                vp_upgrade := Some up
+              |} /\
+            verify_proof cr rt rtf
+              {|
+                p_fork := t_fork t;
+                p_block := Some {| db_index := i; db_value := TreeRef.blk bs i; db_nodes := ns |};
+                p_hash := None;
+                p_seek := None;
+                p_upgrade := Some up
+              |} pk = Ok cs /\
+            cs_roots cs = TreeRef.ref_roots cr bs w /\
+            cs_length cs = w /\
+            cs_byte_length cs = TreeRef.prefix_size bs w /\
+            cs_fork cs = t_fork t /\
+            cs_upgraded cs = true /\
+            cs_signature cs = Some sg /\
+            cs_hash cs = Some (tree_hash cr (TreeRef.ref_roots cr bs w)) /\
+            cs_ancestors cs = 0 /\
+            Forall (TreeRef.is_ref cr bs) (cs_nodes cs) /\
+            In (TreeRef.ref_node cr bs 0 i) (cs_nodes cs) /\
+            (forall n : node, In n ns -> In n (cs_nodes cs)) /\ commitable rt cs = true).
+Proof. exact block_upgrade_empty_accepted. Qed.
+
+Theorem C03_seek_with_block_served :
+  forall (cr : crypto) (bs : list bytes),
+         sumN (map len bs) <= u64_max ->
+         forall (t : mtree) (tf : file) (rt : mtree) (rtf : file) (w i k bytes0 : N) (pk : bytes),
+         Refine.lookups cr t tf bs w ->
+         t_length t = w ->
+         t_roots t = TreeRef.ref_roots cr bs w ->
+         t_length rt <= w ->
+         2 * w <= u64_max ->
+         (forall (j : N) (n : node),
+          optional_node rt rtf j = Ok (Some n) -> n_hash n = n_hash (TreeRef.ref_at cr bs j)) ->
+         i < t_length rt ->
+         missing_nodes rt rtf (2 * i) = Ok k ->
+         let kk := N.to_nat k in
+         let o := i / OffsetFacts.p2 kk in
+         (o + 1) * OffsetFacts.p2 kk <= t_length rt ->
+         seek_in_range (TreeRef.prefix_size bs (o * OffsetFacts.p2 kk))
+           (TreeRef.prefix_size bs ((o + 1) * OffsetFacts.p2 kk)) bytes0 ->
+         exists (sk : option (list node)) (ns : list node) (cs : changeset),
+           create_valueless_proof t tf (Some {| rb_index := i; rb_nodes := k |}) None
+             (Some {| rs_bytes := bytes0 |}) None =
+           Ok
+             {|
+               vp_fork := t_fork t;
+               vp_block := Some {| dh_index := i; dh_nodes := ns |};
+               vp_hash := None;
+               vp_seek := option_map (mkDataSeek bytes0) sk;
+               vp_upgrade := None
+             |} /\
+           verify_proof cr rt rtf
+             {|
+               p_fork := t_fork t;
+               p_block := Some {| db_index := i; db_value := TreeRef.blk bs i; db_nodes := ns |};
+               p_hash := None;
+               p_seek := option_map (mkDataSeek bytes0) sk;
+               p_upgrade := None
+             |} pk = Ok cs /\
+           cs_upgraded cs = false /\
+           commitable rt cs = true /\
+           cs_roots cs = t_roots rt /\
+           Forall (TreeRef.is_ref cr bs) (cs_nodes cs) /\ In (TreeRef.ref_node cr bs 0 i) (cs_nodes cs).
+Proof. exact seek_block_served. Qed.
+
+Theorem C03_seek_with_hash_served :
+  forall (cr : crypto) (bs : list bytes),
+         sumN (map len bs) <= u64_max ->
+         forall (t : mtree) (tf : file) (rt : mtree) (rtf : file) (w : N) (d0 : nat) 
+           (a0 k bytes0 : N) (pk : bytes),
+         Refine.lookups cr t tf bs w ->
+         t_length t = w ->
+         t_roots t = TreeRef.ref_roots cr bs w ->
+         t_length rt <= w ->
+         2 * w <= u64_max ->
+         (forall (j : N) (n : node),
+          optional_node rt rtf j = Ok (Some n) -> n_hash n = n_hash (TreeRef.ref_at cr bs j)) ->
+         (a0 + 1) * OffsetFacts.p2 d0 <= t_length rt ->
+         missing_nodes rt rtf (ft_index (N.of_nat d0) a0) = Ok k ->
+         let kk := N.to_nat k in
+         let o := a0 / OffsetFacts.p2 kk in
+         (o + 1) * OffsetFacts.p2 (d0 + kk) <= t_length rt ->
+         seek_in_range (TreeRef.prefix_size bs (o * OffsetFacts.p2 (d0 + kk)))
+           (TreeRef.prefix_size bs ((o + 1) * OffsetFacts.p2 (d0 + kk))) bytes0 ->
+         let idx := ft_index (N.of_nat d0) a0 in
+         exists (sk : option (list node)) (ns : list node) (cs : changeset),
+           create_valueless_proof t tf None (Some {| rb_index := idx; rb_nodes := k |})
+             (Some {| rs_bytes := bytes0 |}) None =
+           Ok
+             {|
+               vp_fork := t_fork t;
+               vp_block := None;
+               vp_hash := Some {| dh_index := idx; dh_nodes := ns |};
+               vp_seek := option_map (mkDataSeek bytes0) sk;
+               vp_upgrade := None
+             |} /\
+           verify_proof cr rt rtf
+             {|
+               p_fork := t_fork t;
+               p_block := None;
+               p_hash := Some {| dh_index := idx; dh_nodes := ns |};
+               p_seek := option_map (mkDataSeek bytes0) sk;
+               p_upgrade := None
+             |} pk = Ok cs /\
+           cs_upgraded cs = false /\
+           commitable rt cs = true /\
+           cs_roots cs = t_roots rt /\
+           Forall (TreeRef.is_ref cr bs) (cs_nodes cs) /\ In (TreeRef.ref_node cr bs d0 a0) (cs_nodes cs).
+Proof. exact seek_hash_served. Qed.
+
+Theorem C03_seek_block_upgrade_accepted :
+  forall (cr : crypto) (bs : list bytes),
+         sumN (map len bs) <= u64_max ->
+         forall (t : mtree) (tf : file) (rt : mtree) (rtf : file) (w r u i k bytes0 : N) (sg pk : bytes),
+         Refine.lookups cr t tf bs w ->
+         t_length t = w ->
+         t_roots t = TreeRef.ref_roots cr bs w ->
+         t_signature t = Some sg ->
+         t_roots rt = TreeRef.ref_roots cr bs r ->
+         t_length rt = r ->
+         t_byte_length rt = TreeRef.prefix_size bs r ->
+         (forall (j : N) (n : node),
+          optional_node rt rtf j = Ok (Some n) -> n_hash n = n_hash (TreeRef.ref_at cr bs j)) ->
+         0 < r ->
+         r < u ->
+         u <= w ->
+         2 * w <= u64_max ->
+         i < r ->
+         missing_nodes rt rtf (2 * i) = Ok k ->
+         let kk := N.to_nat k in
+         let o := i / OffsetFacts.p2 kk in
+         (o + 1) * OffsetFacts.p2 kk <= r ->
+         seek_in_range (TreeRef.prefix_size bs (o * OffsetFacts.p2 kk))
+           (TreeRef.prefix_size bs ((o + 1) * OffsetFacts.p2 kk)) bytes0 ->
+         Datatypes.length sg = 64%nat ->
+         cr_verify cr pk (signable (tree_hash cr (TreeRef.ref_roots cr bs w)) w (t_fork t)) sg = true ->
+         let up :=
+           {|
+             du_start := r;
+             du_length := u - r;
+             du_nodes := map (TreeRef.rn cr bs) (upg_idx g64 0 r u);
+             du_additional := if u <? w then map (TreeRef.rn cr bs) (upg_idx g64 0 u w) else [];
+             du_signature := sg
+           |} in
+         exists (sk : option (list node)) (ns : list node) (cs : changeset),
+           create_valueless_proof t tf (Some {| rb_index := i; rb_nodes := k |}) None
+             (Some {| rs_bytes := bytes0 |}) (Some {| ru_start := r; ru_length := u - r |}) =
+           Ok
+             {|
+               vp_fork := t_fork t;
+               vp_block := Some {| dh_index := i; dh_nodes := ns |};
+               vp_hash := None;
+               vp_seek := option_map (mkDataSeek bytes0) sk;
+               vp_upgrade := Some up
+             |} /\
+           verify_proof cr rt rtf
+             {|
+               p_fork := t_fork t;
+               p_block := Some {| db_index := i; db_value := TreeRef.blk bs i; db_nodes := ns |};
+               p_hash := None;
+               p_seek := option_map (mkDataSeek bytes0) sk;
+               p_upgrade := Some up
+             |} pk = Ok cs /\
+           cs_roots cs = TreeRef.ref_roots cr bs w /\
+           cs_length cs = w /\
+           cs_byte_length cs = TreeRef.prefix_size bs w /\
+           cs_fork cs = t_fork t /\
+           cs_upgraded cs = true /\
+           cs_signature cs = Some sg /\
+           cs_hash cs = Some (tree_hash cr (TreeRef.ref_roots cr bs w)) /\
+           cs_ancestors cs = r /\
+           Forall (TreeRef.is_ref cr bs) (cs_nodes cs) /\
+           In (TreeRef.ref_node cr bs 0 i) (cs_nodes cs) /\ commitable rt cs = true.
+Proof. exact seek_block_upgrade_accepted. Qed.
+
+Theorem C03_replication_round_at_core_level :
+  forall cr : crypto,
+         OplogFacts.crc_ok cr ->
+         (forall x : bytes, Datatypes.length (cr_hash cr x) = 32%nat) ->
+         (forall x : bytes, all_zero (cr_hash cr x) = false) ->
+         (forall x : bytes, bytes_ok (cr_hash cr x) = true) ->
+         forall bs : list bytes,
+         writer_fits bs ->
+         forall (f : option bool) (cw : core) (dw : disk) (bw : list bytes) (sg : bytes) 
+           (jw : list sop) (evw : list event) (c : core) (d : disk) (j : list sop) 
+           (ev : list event) (H : N -> bool) (rq : request),
+         let w := N.of_nat (Datatypes.length bw) in
+         let pk := kp_public (c_keypair c) in
+         writer_at cr bs cw dw bw pk sg ->
+         RCInv cr bs c d H ->
+         t_length (c_tree c) <= w ->
+         wf_request bs (c_tree c) (d_tree d) w rq ->
+         AcceptAllCore1.core_scope w rq ->
+         (forall vp : vproof,
+          create_valueless_proof (c_tree cw) (d_tree dw) (rq_block rq) (rq_hash rq) 
+            (rq_seek rq) (rq_upgrade rq) = Ok vp -> frame_guard cr c d (vp_to_proof vp (rq_value bs rq))) ->
+         exists pf : proof,
+           core_create_proof (rq_block rq) (rq_hash rq) (rq_seek rq) (rq_upgrade rq) cw
+             {| w_disk := dw; w_journal := jw; w_events := evw |} =
+           (cw, {| w_disk := dw; w_journal := jw; w_events := evw |}, Ok (Some pf)) /\
+           (forall i : N,
+            hold H (p_block pf) i =
+            match rq_block rq with
+            | Some b => (i =? rb_index b) || H i
+            | None => H i
+            end) /\
+           ((exists (c' : core) (w' : world),
+               core_apply_proof cr f pf c {| w_disk := d; w_journal := j; w_events := ev |} = (c', w', Ok true) /\
+               RCInv cr bs c' (w_disk w') (hold H (p_block pf)) /\
+               t_length (c_tree c') = rq_target (c_tree c) (rq_upgrade rq) /\ c_keypair c' = c_keypair c) \/
+            some_collision cr \/ forged_signature cr bs pk).
+Proof. exact replication_round. Qed.
+
+Theorem C03_replicas_converge :
+  forall cr : crypto,
+         OplogFacts.crc_ok cr ->
+         (forall x : bytes, Datatypes.length (cr_hash cr x) = 32%nat) ->
+         (forall x : bytes, all_zero (cr_hash cr x) = false) ->
+         (forall x : bytes, bytes_ok (cr_hash cr x) = true) ->
+         forall bs : list bytes,
+         writer_fits bs ->
+         forall (es : list revent) (c : core) (d : disk) (j : list sop) (ev : list event) (H : N -> bool),
+         RCInv cr bs c d H ->
+         hist cr bs es c {| w_disk := d; w_journal := j; w_events := ev |} ->
+         (exists (c' : core) (w' : world),
+            run cr es c {| w_disk := d; w_journal := j; w_events := ev |} = Some (c', w') /\
+            RCInv cr bs c' (w_disk w') (held_all H es) /\
+            c_keypair c' = c_keypair c /\
+            t_length (c_tree c) <= t_length (c_tree c') /\
+            (forall i : N, requested es i -> core_has c' i = true) /\
+            (forall i : N, H i = true -> core_has c' i = true) /\
+            (forall (i : N) (j2 : list sop) (ev2 : list event),
+             core_has c' i = true ->
+             core_get i c' {| w_disk := w_disk w'; w_journal := j2; w_events := ev2 |} =
+             (c', {| w_disk := w_disk w'; w_journal := j2; w_events := ev2 |}, Ok (Some (TreeRef.blk bs i))))) \/
+         some_collision cr \/ forged_signature cr bs (kp_public (c_keypair c)).
+Proof. exact replicas_converge. Qed.
+
+Theorem C03_fresh_replicas_converge :
+  forall cr : crypto,
+         OplogFacts.crc_ok cr ->
+         (forall x : bytes, Datatypes.length (cr_hash cr x) = 32%nat) ->
+         (forall x : bytes, all_zero (cr_hash cr x) = false) ->
+         (forall x : bytes, bytes_ok (cr_hash cr x) = true) ->
+         forall bs : list bytes,
+         writer_fits bs ->
+         forall (kp : keypair) (es : list revent),
+         OplogFacts.keypair_ok kp = true ->
+         kp_secret kp = None ->
+         exists (d0 : disk) (ops0 : list sop) (c0 : core),
+           core_open cr (Some kp) false disk_empty = (d0, ops0, Ok c0) /\
+           (hist cr bs es c0 {| w_disk := d0; w_journal := []; w_events := [] |} ->
+            (exists (c' : core) (w' : world),
+               run cr es c0 {| w_disk := d0; w_journal := []; w_events := [] |} = Some (c', w') /\
+               RCInv cr bs c' (w_disk w') (held_all (fun _ : N => false) es) /\
+               (forall i : N, requested es i -> core_has c' i = true) /\
+               (forall (i : N) (j2 : list sop) (ev2 : list event),
+                core_has c' i = true ->
+                core_get i c' {| w_disk := w_disk w'; w_journal := j2; w_events := ev2 |} =
+                (c', {| w_disk := w_disk w'; w_journal := j2; w_events := ev2 |}, Ok (Some (TreeRef.blk bs i))))) \/
+            some_collision cr \/ forged_signature cr bs (kp_public kp)).
+Proof. exact fresh_replicas_converge. Qed.
+
 Print Assumptions C03_block_request_served.
 Print Assumptions C03_block_only_end_to_end.
 Print Assumptions C03_block_only_accepted.
@@ -1257,3 +1581,13 @@ Print Assumptions C03_honest_upgrade_proof_applied_end_to_end.
 Print Assumptions C03_block_stored_at_prefix_sum_offset.
 Print Assumptions C03_unheld_block_yields_no_proof.
 Print Assumptions C03_create_proof_determined.
+Print Assumptions C03_every_wellformed_request_accepted.
+Print Assumptions C03_first_contact_block_with_upgrade_accepted.
+Print Assumptions C03_seek_with_block_served.
+Print Assumptions C03_seek_with_hash_served.
+Print Assumptions C03_seek_block_upgrade_accepted.
+Print Assumptions C03_replication_round_at_core_level.
+Print Assumptions C03_replicas_converge.
+Print Assumptions C03_fresh_replicas_converge.
+Print Assumptions AcceptAllEx.sc_run_computed.
+Print Assumptions AcceptAll.ex_first_contact_accepted.
